@@ -320,5 +320,6 @@ pub fn run(seed: u64, tier: &str, w: &mut dyn Write) -> usize {
         // the circuit version against the recursive model, and (the property) against the native one
         o.case(&["rchallenger", "challenger"], &code, || run_recursive(&code));
     }
-    o.n
+    let nk = crate::c13k::run(&mut r.fork(), tier, o.w);
+    o.n + nk
 }
